@@ -1475,13 +1475,39 @@ def _report_typing(ctx, qual, label, bad, checked):
 
 
 RULES = [
-    ("C08-R1", r1_carried_state, 30),
-    ("C08-R2", r2_step_equals_batch, 40),
-    ("C08-R2c", r2c_complex_path, 80),
-    ("C08-R3", r3_addon_linear_part, 24),
+    ("C08-R1", r1_carried_state, 100),
+    ("C08-R2", r2_step_equals_batch, 110),
+    ("C08-R2c", r2c_complex_path, 90),
+    ("C08-R3", r3_addon_linear_part, 120),
     ("C08-R3c", r3c_complex_addon, 80),
-    ("C08-R4", r4_get_f2x, 8),
-    ("C08-R5", r5_typestate, 9),
-    ("C08-R6", r6_typing, 40),
-    ("C08-R7", r7_constructor_state_is_read_only, 20),
+    ("C08-R4", r4_get_f2x, 20),
+    ("C08-R5", r5_typestate, 28),
+    ("C08-R6", r6_typing, 120),
+    ("C08-R7", r7_constructor_state_is_read_only, 40),
 ]
+LEVEL = "other"
+EXPLANATION = ("Static, decided on values: every generator body is executed symbolically per configuration of the solver object (order, partitions "
+               "present, mass None/diagonal/full, real/complex) and per kind of send; array accesses are references (array, partition, column) "
+               "however the source reaches them. The state carried from one send to the next (found by def-use) is exactly the step index plus, "
+               "for damping-as-force, a cached force whose tag is re-validated by meaning; the positive-send update is the batch step as an exact "
+               "symbolic identity in (column i-1, Force[:, i-1], sent force); an add-on adds exactly the f1-linear part; get_f2x uses that same "
+               "coefficient (same half of Q and same side of the mass inverse for SolveExp2); typestate of generator()/finalize(); partition typing "
+               "of the executed paths; no method reachable from tsolve/generator/finalize/get_f2x stores in place into constructor state.")
+MANIFEST = {
+    "text": "Partial claim decided statically: (R1) the loop-carried state of all 15 generator loops, found by def-use on a symbolic iteration, is exactly the "
+            "step index (+ one cached damping force and its tag for damping-as-force; in every world 'step j-1 / j / j+1 / j-2 / any other step was solved "
+            "last' a force cached for a step other than j-1 never enters step j; the tag is set by every positive send, the cache follows V[:, i] on add-ons); "
+            "(R2) positive send == batch step for the uncoupled, damping-as-force and SolveExp2 generators in every order / rf / rf-only / mass configuration; "
+            "(R3) add-on increment == d(update)/d f1 * F1 and touches nothing else; (R4) get_f2x == phi (d update/d f1) phi^T incl. the rf part, for "
+            "SolveExp2 with the same half of Q and the same side of M^-1 as the add-on arm; (R5) generator() publishes the four arrays of _init_dva_part "
+            "before priming and hands them to the right body, finalize() recovers acceleration from exactly those, _init_dva_part starts the force history "
+            "with F0 and the rf displacement with K_rf^-1 F0[rf]; (R6) index-space typing of the executed paths; (R7) constructor-computed arrays are never "
+            "stored into in place after construction (alias analysis). By induction over sends these give the batch solution for every finite history in "
+            "the documented domain. (R2c/R3c) the same for the complex-eigenvalue generator against SolveUnc._solve_complex_unc in 12 configurations. "
+            "Not decided: bit-equality of differently associated sums, add-on before any positive send.",
+    "note": "Trusted: CPython ast; verifier/e2_formula.py with matrix products abstracted to commutative products (a wrong coefficient or term is seen; a wrong "
+            "multiplication order only where the side is tracked: lu_solve / transposes in SolveExp2.get_f2x versus the generator); lemma used: the cached "
+            "damping force, when its tag says step j-1, equals bo @ V[:, j-1]. The batch loop bodies are lowered with name/shape hooks (batch code only).",
+    "technique": "symbolic execution per configuration + def-use of loop-carried state + symbolic step formulas compared with the batch loop body + "
+                 "differentiation for the add-on part + may-alias effect analysis",
+}
